@@ -32,46 +32,35 @@ def string_enum(ctx, F, cfg, path, oracle):
                       "anchor missing: From<%s> for &str / TryFrom<&str> for %s" % (short, short), cfg=cfg):
         return 0
     rows = 0
+    from . import ftable as FT
+    OTHER = "\x00<any other string>"
     try:
-        m, frows = T.variant_table(fwd_fn, F)
-        fwd = {}
-        for r in frows:
-            if r["variant"] is None:
-                raise T.Unreadable("catch-all arm in the encode table")
-            name = r["variant"].split("::")[-1]
-            kind, val = T.result_value(r["res"], F)
-            if name not in fwd:
-                fwd[name] = val if kind == "lit" else None
-        m2, brows = T.conversion_table(bwd_fn, F)
-    except T.Unreadable as e:
+        ftab = FT.variant_table(F, fwd_fn, path)
+        fwd = {name: (r[1] if r is not None and r[0] == "lit" and isinstance(r[1], str) else None) for name, r in ftab.items()}
+        btab = FT.value_table(F, bwd_fn, list(oracle.values()) + [OTHER], add_literals=True)
+    except FT.Unreadable as e:
         ctx.violation("C18|str|%s|unreadable" % short, "UNREADABLE-IMPL: %s" % e, cfg=cfg)
         return 0
-    pnames = [n for p in bwd_fn["params"] for n, _ in H.pat_bindings(p)]
-    ctx.oblige("C18|str|%s|scrutinee" % short, H.local_name(m2["scrut"]) in pnames, "TryFrom<&str> for %s does not match on its argument" % short, cfg=cfg)
     for name, spelling in sorted(oracle.items()):
         rows += 1
         ctx.oblige("C18|str|%s|encode|%s" % (short, name), fwd.get(name) == spelling,
                    "%s::%s is spelled %r, specification says %r" % (short, name, fwd.get(name), spelling), cfg=cfg, where=fwd_fn["sp"])
-        r = T.first_match(brows, spelling)
-        got = None
-        if r is not None and r["kind"] == "ok":
-            k, c = T.result_value(r["res"], F)
-            got = c.split("::")[-1] if k == "ctor" and c else None
+        kind, pay = FT.classify(btab.get(spelling))
+        got = FT.ctor_name(pay) if kind == "ok" else None
         ctx.oblige("C18|str|%s|decode|%s" % (short, name), got == name,
                    "%r decodes to %s::%s, specification says %s" % (spelling, short, got, name), cfg=cfg, where=bwd_fn["sp"])
-    # nothing else accepted: every accepting arm is an exact literal from the oracle, catch-all rejects
+    # nothing else accepted: every other literal the code compares with, and the probe that equals none of them, is rejected
     spellings = set(oracle.values())
-    has_catch = False
-    for r in brows:
-        if r["catchall"]:
-            has_catch = True
-            ctx.oblige("C18|str|%s|catch-all" % short, r["kind"] == "err", "the catch-all arm of TryFrom<&str> for %s accepts" % short, cfg=cfg, where=bwd_fn["sp"])
-            break
-        extra = {v for v in r["vals"] if v not in spellings}
-        if r["kind"] == "ok":
-            ctx.oblige("C18|str|%s|extra|%s" % (short, sorted(map(str, r["vals"]))), not extra,
-                       "TryFrom<&str> for %s also accepts %s" % (short, sorted(map(str, extra))), cfg=cfg, where=bwd_fn["sp"])
-    ctx.oblige("C18|str|%s|total" % short, has_catch, "no rejecting catch-all in TryFrom<&str> for " + short, cfg=cfg)
+    for v, r in sorted(btab.items(), key=lambda kv: repr(kv[0])):
+        if v in spellings:
+            continue
+        kind, pay = FT.classify(r)
+        if v == OTHER:
+            ctx.oblige("C18|str|%s|catch-all" % short, kind == "err", "a string that is none of the identifiers is accepted by TryFrom<&str> for %s (as %s)" % (short, S_show(pay)), cfg=cfg, where=bwd_fn["sp"])
+        else:
+            ctx.oblige("C18|str|%s|extra|%s" % (short, v), kind == "err", "TryFrom<&str> for %s also accepts %r" % (short, v), cfg=cfg, where=bwd_fn["sp"])
+    ctx.oblige("C18|str|%s|total" % short, OTHER in btab, "no rejecting catch-all in TryFrom<&str> for " + short, cfg=cfg)
+    brows = [[repr(v)[:40], FT.classify(r)[0]] for v, r in btab.items()]
     ctx.oblige("C18|str|%s|distinct" % short, len(set(fwd.values())) == len(fwd), "two %s variants share a spelling" % short, cfg=cfg)
     # serde wiring: Serialize goes through From<E> for &str, Deserialize through TryFrom<&str> for E
     ser = F.impl_fn(SER, path, "serialize")
@@ -85,8 +74,13 @@ def string_enum(ctx, F, cfg, path, oracle):
         okde = has_str and has_conv
     ctx.oblige("C18|str|%s|serde-ser" % short, okser, "%s is not serialised through its From<%s> for &str table" % (short, short), cfg=cfg)
     ctx.oblige("C18|str|%s|serde-de" % short, okde, "%s is not deserialised through its TryFrom<&str> table" % short, cfg=cfg)
-    ctx.sample({"cfg": cfg, "enum": path, "encode": fwd, "decode_arms": [[sorted(map(str, r["vals"])), r["kind"]] for r in brows]}, limit=12)
+    ctx.sample({"cfg": cfg, "enum": path, "encode": fwd, "decode_arms": brows}, limit=12)
     return rows
+
+
+def S_show(t):
+    from . import sym as S
+    return S.show(t)[:60]
 
 
 def repr_int(s):
@@ -170,25 +164,23 @@ def repr_enum(ctx, F, cfg, path, spec):
     if spec.get("try_from_u8"):
         fn = F.trait_impl_fn("<%s as core::convert::TryFrom<u8>>" % path, "try_from")
         if ctx.oblige("C18|num|%s|try_from|impl" % short, fn is not None, "anchor missing: TryFrom<u8> for " + short, cfg=cfg):
+            from . import ftable as FT
             try:
-                m, rows_ = T.byte_table(fn, F)
+                tab = FT.value_table(F, fn, range(256))
                 for b in range(256):
-                    r = T.first_match(rows_, b)
+                    kind, pay = FT.classify(tab[b])
                     wantname = next((n for n, v in want.items() if v == b), None)
-                    if r is None:
-                        got = "non-exhaustive"
-                    elif r["kind"] == "ok":
-                        k, c = T.result_value(r["res"], F)
-                        got = c.split("::")[-1] if k == "ctor" and c else "?"
+                    if kind == "ok":
+                        got = FT.ctor_name(pay) or "?"
                     else:
-                        k, c = T.result_value(r["res"], F)
                         got = None
                         if wantname is None:
-                            ctx.oblige("C18|num|%s|try_from|err|%d" % (short, b), k == "ctor" and c == spec["try_from_u8"],
+                            c = pay[1] if pay is not None and pay[0] == "ctor" else None
+                            ctx.oblige("C18|num|%s|try_from|err|%d" % (short, b), kind == "err" and c == spec["try_from_u8"],
                                        "%s::try_from(%d) fails with %s, expected %s" % (short, b, c, spec["try_from_u8"]), cfg=cfg, where=fn["sp"], nontrivial=False)
                     ctx.oblige("C18|num|%s|try_from|%d" % (short, b), got == wantname,
                                "%s::try_from(%d) gives %s, specification says %s" % (short, b, got, wantname), cfg=cfg, where=fn["sp"])
-            except T.Unreadable as e:
+            except FT.Unreadable as e:
                 ctx.violation("C18|num|%s|try_from|unreadable" % short, "UNREADABLE-IMPL: %s" % e, cfg=cfg)
     if cfg == "k0":
         ctx.sample({"enum": path, "discriminants": discr if len(discr) < 12 else dict(list(discr.items())[:12])}, limit=30)
